@@ -80,7 +80,7 @@ func absInt(x int) uint64 {
 }
 
 func parseShape(name string, records []klog.Record, blocks []txt.Block, errs []txt.Error) error {
-	if errs == nil {
+	if len(errs) == 0 {
 		if len(records) != len(blocks) {
 			return fmt.Errorf("%s: %d records but %d blocks", name, len(records), len(blocks))
 		}
@@ -91,10 +91,8 @@ func parseShape(name string, records []klog.Record, blocks []txt.Block, errs []t
 		}
 		return nil
 	}
-	if len(errs) == 0 {
-		return fmt.Errorf("%s: non-nil empty error list", name)
-	}
-	if records != nil || blocks != nil {
+	// "no records and at least one error": whether blocks accompany the errors is not stated
+	if len(records) != 0 {
 		return fmt.Errorf("%s: errors together with records", name)
 	}
 	return nil
@@ -118,20 +116,23 @@ func crashCheckX(text string, out *Outcome, noExclusions bool) error {
 	if err := parseShape("parallel(3)", pr, pb, pe); err != nil {
 		return err
 	}
-	if (errs == nil) != (pe == nil) {
-		return fmt.Errorf("serial and parallel disagree on acceptance")
-	}
-	if errs != nil {
+	// (that the two engines agree is C07's statement, not C06's)
+	if len(errs) != 0 || len(pe) != 0 {
 		out.Label("rejected")
-		for _, e := range errs {
-			_ = e.Error() + e.LineText() + e.Code() + e.Title() + e.Details() + e.Message() + e.Origin()
-			_ = e.LineNumber() + e.Position() + e.Column() + e.Length()
+		for _, list := range [][]txt.Error{errs, pe} { // the parallel list went through renumbering
+			if len(list) == 0 {
+				continue
+			}
+			for _, e := range list {
+				_ = e.Error() + e.LineText() + e.Code() + e.Title() + e.Details() + e.Message() + e.Origin()
+				_ = e.LineNumber() + e.Position() + e.Column() + e.Length()
+			}
+			for _, theme := range []tf.ColourTheme{tf.COLOUR_THEME_NO_COLOUR, tf.COLOUR_THEME_DARK, tf.COLOUR_THEME_LIGHT, tf.COLOUR_THEME_BASIC} {
+				_ = util.PrettifyParsingError(app.NewParserErrors(list), tf.NewStyler(theme)).Error()
+			}
+			_ = kjson.ToJson(nil, list, false)
+			_ = kjson.ToJson(nil, list, true)
 		}
-		for _, theme := range []tf.ColourTheme{tf.COLOUR_THEME_NO_COLOUR, tf.COLOUR_THEME_DARK, tf.COLOUR_THEME_LIGHT, tf.COLOUR_THEME_BASIC} {
-			_ = util.PrettifyParsingError(app.NewParserErrors(errs), tf.NewStyler(theme)).Error()
-		}
-		_ = kjson.ToJson(nil, errs, false)
-		_ = kjson.ToJson(nil, errs, true)
 		return nil
 	}
 	out.Label("accepted")
@@ -160,12 +161,12 @@ func crashCheckX(text string, out *Outcome, noExclusions bool) error {
 			return nil
 		}
 	}
-	now := gotime.Date(2024, 5, 5, 10, 0, 0, 0, gotime.Local)
+	now := gotime.Date(2024, 5, 5, 10, 0, 0, 0, gotime.UTC)
 	if len(records) > 0 {
 		// put the clock on the first record's date so that `today` and --now do something
 		d := records[0].Date()
 		if d.Year() >= 1 && d.Year() <= 9998 { // a system clock at the edge of the calendar is not a file-content matter
-			now = gotime.Date(d.Year(), gotime.Month(d.Month()), d.Day(), 23, 59, 0, 0, gotime.Local)
+			now = gotime.Date(d.Year(), gotime.Month(d.Month()), d.Day(), 23, 59, 0, 0, gotime.UTC)
 		}
 	}
 	h := newInlineHarness(now, text, 1, tf.COLOUR_THEME_DARK)
@@ -348,7 +349,7 @@ func TestC06(t *testing.T) {
 	if thorough() {
 		maxTokens = 4
 	}
-	failed = RunEnumWith(t, ev, Enum[caseC06]{ID: "C06", Check: checkC06Direct, Each: eachTokenString(maxTokens)})
+	failed = RunEnumWith(t, ev, Enum[caseC06]{ID: "C06", Check: checkC06Direct, Each: eachTokenString(maxTokens), Journal: true})
 	if failed {
 		return
 	}
